@@ -20,6 +20,7 @@ import (
 	"os"
 	"os/exec"
 	"path/filepath"
+	"reflect"
 	"runtime"
 	"strconv"
 	"strings"
@@ -187,8 +188,16 @@ func deltaCount(d mesh.GossipData) int {
 	if d == nil {
 		return 0
 	}
-	st, ok := d.(*event.State)
-	if !ok || st == nil {
+	// whatever type the swarm hands to the gossip library: count what a peer would decode from it
+	if rv := reflect.ValueOf(d); rv.Kind() == reflect.Ptr && rv.IsNil() {
+		return 0
+	}
+	bufs := d.Encode()
+	if len(bufs) == 0 {
+		return 0
+	}
+	st, err := event.DecodeState(bufs[0])
+	if err != nil || st == nil {
 		return 0
 	}
 	n := 0
